@@ -65,6 +65,7 @@ type EvRedef struct {
 	Inputs []Label `json:"inputs"`
 	Given  []Label `json:"given"` // label under which the harness supplied each declared input (interface types -> dynamic type)
 	Toks   []int   `json:"toks"`  // fresh tokens handed to the follow-up call, per declared input
+	Toks3  []int   `json:"toks3"` // fresh tokens handed to the third call (all declared inputs but the last)
 	Detail string  `json:"detail"`
 	Execs  int     `json:"execs"` // number of user bodies executed during Redefine
 }
